@@ -177,7 +177,11 @@ pub fn gen_instance(rng: &mut Rng, prefix: &str) -> Inst {
         if rng.chance(0.6) {
             // ... that imports two host-provided modules (compiled when the host delivers them,
             // possibly after other instances were created or dropped) and logs their key order
-            case.modules.insert("/lib/a.ts".to_string(), "import * as nb from \"./b.ts\"; console.log(\"run a\", Object.keys(nb).join(\",\")); export const a1: number = nb.b2 + 1; export default String(a1); export const a0: string = typeof Number + typeof String;".to_string());
+            // (a.ts has four imports of its own: the second request round names several modules)
+            case.modules.insert("/lib/a.ts".to_string(), "import * as nb from \"./b.ts\"; import { c1 } from \"./c.ts\"; import { d1 } from \"./sub/d.ts\"; import { e1 } from \"./sub/e.ts\"; console.log(\"run a\", Object.keys(nb).join(\",\"), c1 + d1 + e1); export const a1: number = nb.b2 + 1; export default String(a1); export const a0: string = typeof Number + typeof String;".to_string());
+            case.modules.insert("/lib/c.ts".to_string(), "console.log(\"run c\"); export const c1: number = 1;".to_string());
+            case.modules.insert("/lib/sub/d.ts".to_string(), "console.log(\"run d\"); export const d1: number = 2;".to_string());
+            case.modules.insert("/lib/sub/e.ts".to_string(), "console.log(\"run e\"); export const e1: number = 3;".to_string());
             case.modules.insert("/lib/b.ts".to_string(), "console.log(\"run b\"); export const b2: number = 41; export const b1: string = \"x\"; export function b3(): number { return Number(\"3\"); }".to_string());
             if let Some(first) = case.tree.kids.first_mut() {
                 first.pre = format!("import * as __na from \"/lib/a.ts\";\n{}", first.pre);
